@@ -1,4 +1,5 @@
 import DaeVerif.C17.Model
+import DaeVerif.C17.Pipeline
 import DaeVerif.Common.Proto
 /-! Line-protocol driver for C17 (op grammar: see harness/overlay/pkg/config_parser/c17_test.go). -/
 open DaeVerif DaeVerif.C17 DaeVerif.Proto
@@ -210,15 +211,25 @@ def pGlob : P (List Char × Option (List (List Char))) := do
 abbrev Tree := List (List Char × Option (List Char) × FileInfo)
 
 /-- the path the kernel resolves a spelling to: made absolute against the working directory,
-cleaned, final-component symbolic links followed (the harness only makes file links) -/
+cleaned, then resolved component by component — a symbolic link met on the way (a directory link
+in the middle, a file link at the end) is replaced by its target (absolute, as the harness makes
+them) and resolution goes on from there -/
 def realPath (tree : Tree) (cwd : List Char) (p : List Char) : List Char :=
-  let rec follow : Nat → List Char → List Char
-    | 0, q => q
-    | n + 1, q =>
-      match tree.find? (fun e => e.1 = q) with
-      | some (_, some target, _) => follow n (cleanPath target)
-      | _ => q
-  follow 4 (cleanPath (if isAbsPath p then p else cwd ++ '/' :: p))
+  let linkAt := fun (q : List Char) =>
+    match tree.find? (fun e => e.1 = q) with
+    | some (_, some target, _) => some (cleanPath target)
+    | _ => none
+  -- `walk fuel resolved remaining`
+  let rec walk : Nat → List Char → List (List Char) → List Char
+    | 0, cur, rest => cur ++ rest.flatMap (fun c => '/' :: c)
+    | _, cur, [] => if cur.isEmpty then ['/'] else cur
+    | n + 1, cur, c :: rest =>
+      let next := cur ++ '/' :: c
+      match linkAt next with
+      | some target => walk n [] (cleanComps target ++ rest)
+      | none => walk n next rest
+  let abs := cleanPath (if isAbsPath p then p else cwd ++ '/' :: p)
+  walk 64 [] (cleanComps abs)
 
 /-- the file system the real Merger ran on: `stat` by resolved path (so every spelling of a file
 answers), `glob` by the harness's table of real `filepath.Glob` answers -/
@@ -316,6 +327,28 @@ def handle (st : St) (line : String) : St × String :=
       | (ms, .ok m) =>
         (st, "ok " ++ smapStr m ++ " entries=" ++ ",".intercalate (sortStrings (ms.visited.map esc)) ++ openedStr ms)
     | _, _ => (st, "bad-op")
+  | "r" :: entry :: rest =>
+    -- cmd.readConfig = Merger.Merge ; config.New on a described tree
+    let p : P (List Char × Tree × List (List Char × Option (List (List Char))) × List (Nat × List Char × Option (List Char))) := do
+      expect "C"; let cwd ← hexs
+      expect "F"; let n ← nat; let files ← times n pFile
+      expect "G"; let g ← nat; let globs ← times g pGlob
+      expect "O"; let tbl ← pOracle
+      pure (cwd, files, globs, tbl)
+    match st.schema, unhex entry, runP p rest with
+    | some si, some entry, some (cwd, tree, globs, tbl) =>
+      let fuel := (globs.map fun e => match e.2 with | some l => l.length | none => 0).sum + 3
+      match readConfig st.K (fsOf tree cwd globs) si.S (decOf si.specs (tbl ++ si.oracle)) fuel 64 entry with
+      | .error (.merge e) => (st, "err:merge:" ++ merrStr e)
+      | .error (.new e sec) => (st, "err:" ++ cerrStr e ++ (if sec.isEmpty then "" else "@" ++ String.ofList sec))
+      | .ok store => (st, "ok " ++ storeStr si.zeros store)
+    | _, _, _ => (st, "bad-op")
+  | ["do", e] =>
+    -- a value of a kind the model does not specify: the answer of the standard library, as given
+    match oracleEntry e with
+    | some (_, _, some r) => (st, "ok " ++ esc r)
+    | some (_, _, none) => (st, "err")
+    | none => (st, "bad-op")
   | ["z", which, maxLen, text] =>
     match maxLen.toNat?, unhex text with
     | some maxLen, some cs =>
@@ -325,6 +358,21 @@ def handle (st : St) (line : String) : St × String :=
         let rules := rulesOfItems (ss.flatMap (·.items))
         let emit := if which = "r" then routingEmit else if which = "q" then dnsRequestEmit else dnsResponseEmit
         match compileSize emit (which = "r") maxLen rules with
+        | .ok n => (st, if which = "r" then "ok sets=" ++ toString n else "ok")
+        | .error .oversize => (st, "err:oversize")
+        | .error .unknownFunction => (st, "err:unknownFunction")
+        | .error .noParams => (st, "err:noParams")
+    | _, _ => (st, "bad-op")
+  | ["y", which, maxLen, text] =>
+    -- the production path: config text → rules as config.New hands them on → optimizers → lowering
+    match maxLen.toNat?, unhex text with
+    | some maxLen, some cs =>
+      match parse st.K cs with
+      | none => (st, "err:parse")
+      | some ss =>
+        let rules := if which = "r" then routingRulesOf ss else dnsResponseRulesOf ss
+        if usesGeodata rules then (st, "geodata-parameters-are-not-modelled") else
+        match (if which = "r" then compileRouting maxLen rules else compileDnsResponse maxLen rules) with
         | .ok n => (st, if which = "r" then "ok sets=" ++ toString n else "ok")
         | .error .oversize => (st, "err:oversize")
         | .error .unknownFunction => (st, "err:unknownFunction")
